@@ -235,6 +235,51 @@ def example_case(args):
     return res
 
 
+def pattern_details_probe(res) -> None:
+    """docs/lbyl-linter.md documents its patterns under 'Pattern Details' ('**Detects:**' blocks), not under 'Violation Examples',
+    so the extractor does not see them.  Every such block that is reported stand-alone under the default pattern switches must keep
+    each of its findings in every Python context (Lean: `embedded_finding_reported`, `embedding_count_ge`): read from the
+    documentation on every run, one embedding per context, no random choice."""
+    import random
+    doc_path = core.REPO / "docs" / "lbyl-linter.md" if hasattr(core, "REPO") else Path("/repo/docs/lbyl-linter.md")
+    if not doc_path.exists():
+        return
+    doc = doc_path.read_text()
+    if "## Pattern Details" not in doc:
+        return
+    sec = doc.split("## Pattern Details", 1)[1].split("\n## ", 1)[0]
+    blocks = re.findall(r"\*\*Detects:\*\*\s*\n```python\n(.*?)```", sec, flags=re.S)
+    cfg = {"lbyl": {"enabled": True}}
+    root = core.scratch_dir("c19p")
+    try:
+        for b in blocks:
+            code = b.rstrip("\n")
+            doc_line = doc[:doc.index(b)].count("\n") + 1
+            _, vs0, _ = lint_text(root / "p", "lbyl", "py", code + "\n", cfg)
+            res.evaluations += 1
+            res.bump("lbyl pattern details", "reported stand-alone" if vs0 else "not reported under the default switches")
+            if not vs0:
+                continue
+            rules0 = sorted(v[0] for v in vs0)
+            for ctx in PY_CONTEXTS:
+                text, copies, ctx = embed_py(random.Random(0), code, 1, False, ctx)
+                _, vs1, tail1 = lint_text(root / "p", "lbyl", "py", text, cfg)
+                res.evaluations += 1
+                res.bump("lbyl pattern details context", ctx)
+                res.nontrivial.add(core.canon(["lbyl-pattern", doc_line, ctx]))
+                rules1 = sorted(v[0] for v in (vs1 or []))
+                lost = [r for r in set(rules0) if rules1.count(r) < rules0.count(r)]
+                if lost:
+                    res.disagreements.append(core.Disagreement(
+                        case={"doc": "lbyl-linter.md", "doc_line": doc_line, "linter": "lbyl", "lang": "py", "kind": "pattern-details", "config": cfg,
+                              "code": code, "embedded": text, "context": ctx},
+                        impl=vs1, model=vs0, spec="every stand-alone finding of the documented pattern survives the embedding",
+                        property_fails=True,
+                        note=f"docs/lbyl-linter.md:{doc_line} (Pattern Details) embedded in {ctx}: findings {lost} are lost ({tail1[-200:] if tail1 else ''})"))
+    finally:
+        shutil.rmtree(root, ignore_errors=True)
+
+
 def run(tier: str, seed: int, st: core.ProofStatus) -> core.Result:
     res = core.Result()
     res.rule = ("every labelled example of the 'Violation Examples' sections of docs/*-linter.md (extracted on every run) with its documented configuration: "
@@ -351,6 +396,7 @@ def run(tier: str, seed: int, st: core.ProofStatus) -> core.Result:
                                                            property_fails=True,
                                                            note=f"{where} ({e['linter']}, {e['kind']}) embedded in {ctx} x{k}{' renamed' if renamed else ''}: unexpected {gained} missing {lost}"))
     drv.close()
+    pattern_details_probe(res)
     res.samples.append({"examples": len(examples), "by_linter": sorted({e["linter"] for e in examples})})
     return res
 
@@ -361,7 +407,7 @@ def replay(path: str, st: core.ProofStatus) -> int:
     print(json.dumps(data, indent=1)[:3500])
     if "linter" in case and ("embedded" in case or "code" in case):
         root = core.scratch_dir("c19r")
-        lang = "py" if "def " in case.get("code", "") or "import " in case.get("code", "") else "ts"
+        lang = case.get("lang") or ("py" if "def " in case.get("code", "") or "import " in case.get("code", "") else "ts")
         for e in selected_examples():
             if e["doc"] == case.get("doc") and e["line"] == case.get("doc_line"):
                 lang = e["lang"]
